@@ -87,6 +87,8 @@ def handle (f : List String) : String :=
     match parseRanges? rs '-' with
     | none => s!"{id}\t0\tfail:bad-line\t-"
     | some R =>
+      -- never materialise a huge enumeration in the driver
+      if (R.foldl (fun a r => a + (r.stop + 1 - r.start)) 0) > 200000 then s!"{id}\t1\tok\tskipped-large" else
       let m := match nums R with
         | none => "no"
         | some l => "ok:" ++ joinWith "," (l.map toString)
